@@ -218,6 +218,7 @@ def embedding_pool():
     pc = topo.base_country('NUM')
     pc.update({'gov': 'TRECB', 'dep': 'rate', 'mon': True, 'r': 'rstep', 'ic': True})
     fed = [topo.base_country('FX', 'FED'), topo.base_country('FR', 'FED', region=True)]
+    fed[1]['region_default_currency'] = True      # Region(model, code): currency defaults to the federation's
     return {'sim': [sim], 'swapped': [swapped], 'simex': [simex], 'pc': [pc], 'fed': fed}
 
 
